@@ -42,7 +42,7 @@ Definition cdig (o : cout) := match o with CMsg l c i p b => (0, l, c, i, p, dig
 Definition cobs (s : cstate) := (c_received s, c_label s, c_pid s, c_cr s, c_ipid s, dig (c_payload s), c_nop s).
 '''
 PRE_SDP = PREAMBLE + '''
-Definition rdig (r : rsp) := let '(k, t, p, m) := rsp_obs r in (k, t, dig p, m).
+Definition rdig (r : rsp) := let '(k, t, p, m) := rsp_obs r in (k, t, dig p, m, rsp_size r).
 Definition crdig (r : cres) := let '(k, a) := cres_obs r in (k, dig a).
 Inductive ccall := KSearch (p : list Z) | KAttr (h : Z) (ids : list idspec) | KSearchAttr (p : list Z) (ids : list idspec).
 Fixpoint run_calls (recs : records) (mtu : Z) (cur : resp) (calls : list ccall) :=
@@ -338,6 +338,31 @@ def subsequence_failures(expected, got):
     return fails
 
 
+def single_fault(segs):
+    """exactly one broken segment, produced by dropping or duplicating one packet, every other segment intact:
+    the assembler then starts the broken message from its reset state and nothing but the original messages
+    may be delivered (a dropped / duplicated packet must fail the count check, never yield another message)"""
+    broken = [s for s in segs if not s['intact']]
+    return len(broken) == 1 and broken[0]['what'] in ('drop', 'dup')
+
+
+def fault_family(frag, relabel_unused=None):
+    """for messages of 3..5 packets: every single drop and every single duplication"""
+    out = []
+    for npk in (3, 4, 5):
+        base = frag(npk)
+        for i in range(len(base['pdus'])):
+            for what in ('drop', 'dup'):
+                pdus = [dict(p) for p in base['pdus']]
+                if what == 'drop':
+                    del pdus[i]
+                else:
+                    pdus.insert(i, dict(pdus[i]))
+                seg = dict(base, intact=False, what=what, pdus=pdus)
+                out.append([seg, dict(base, intact=True, what='intact')])
+    return out
+
+
 def avdtp_seq_oracle(segs, out):
     """every intact message is delivered, in order, whatever broken sequences surround it"""
     expected = [tuple(s['msg'][:3]) + (payload_bytes(s['msg'][3]),) for s in segs if s['intact']]
@@ -347,6 +372,13 @@ def avdtp_seq_oracle(segs, out):
         before = segs[idx - 1]['what'] if idx > 0 else 'start'
         return f'after:{before}', (f'AVDTP message {segs[idx]["msg"][:3]} of {segs[idx]["msg"][3][1]} bytes sent intact in '
                                    f'{len(segs[idx]["pdus"])} packets after a "{before}" sequence was not delivered; delivered {len(out)} messages')
+    if single_fault(segs):
+        originals = [tuple(s_['msg'][:3]) + (payload_bytes(s_['msg'][3]),) for s_ in segs]
+        for o in out:
+            if o not in originals:
+                what = next(s_['what'] for s_ in segs if not s_['intact'])
+                return f'garbage:{what}', (f'AVDTP assembler delivered a message of {len(o[3])} bytes that nobody sent, out of a '
+                                           f'fragment sequence with one packet {"duplicated" if what == "dup" else "dropped"}')
     return None
 
 
@@ -358,8 +390,8 @@ def run_avdtp(ctx):
     for c in corpus('avdtp_frag'):
         cases.append((c['mtu'], c['label'], c['sig'], c['mt'], c['payload']))
     mtus = [4, 5, 6, 7, 8, 9, 16, 48, 49, 50, 64, 100, 255, 256, 672, 1024, 4096, 65535]
-    big_left = ctx.n(3, 40)
-    for _ in range(ctx.n(120, 1500)):
+    big_left = ctx.n(2, 40)
+    for _ in range(ctx.n(70, 1500)):
         mtu = rng.choice(mtus) if rng.chance(3, 4) else rng.range(4, 2000)
         F = mtu - 3
         k = rng.choice([0, 1, 1, 2, 3, 4, 7, 254, 255, 256])
@@ -412,7 +444,13 @@ def run_avdtp(ctx):
                               f'but {len(sent)} packets were sent', replay)
     # ---- broken sequences fed to the real assembler
     seqs = [c['segments'] for c in corpus('avdtp_seq')]
-    for _ in range(ctx.n(250, 3000)):
+    def one_avdtp(npk):
+        F = rng.choice([2, 3, 5])
+        label, (sig, mt) = rng.below(16), rng.choice(pairs)
+        n, a, b = npk * F - rng.below(F), rng.below(256), rng.choice([1, 3, 7])
+        return {'msg': [label, sig, mt, ['pat', n, a, b]], 'pdus': avdtp_peer_frag(F, label, sig, mt, n, a, b)}
+    seqs.extend(fault_family(one_avdtp))
+    for _ in range(ctx.n(120, 3000)):
         seqs.append(gen_avdtp_sequence(rng, rng.choice([1, 2, 3, 4, 6])))
     exprs = []
     for segs in seqs:
@@ -534,13 +572,28 @@ def avctp_seq_oracle(segs, out):
             res.append((f'avctp:lost:{s["layout"]}:after:{before}',
                         f'AVCTP message pid={s["msg"][3]:#x} of {s["msg"][4][1]} bytes sent intact in {s["fragments"]} packets '
                         f'({s["layout"]} layout) after a "{before}" sequence was not delivered'))
+    if single_fault(segs) and all(s_['layout'] == 'pid' or s_['fragments'] == 1 for s_ in segs):
+        originals = [[0] + s_['msg'][:4] + [payload_bytes(s_['msg'][4])] for s_ in segs]
+        for o in msgs:
+            if o not in originals:
+                what = next(s_['what'] for s_ in segs if not s_['intact'])
+                res.append((f'avctp:garbage:{what}', f'AVCTP assembler delivered a message of {len(o[5])} bytes that nobody sent, out '
+                            f'of a fragment sequence with one packet {"duplicated" if what == "dup" else "dropped"}'))
+                break
     return res
 
 
 def run_avctp(ctx):
     rng = ctx.rng.fork('avctp')
     seqs = [c['segments'] for c in corpus('avctp_seq')]
-    for _ in range(ctx.n(300, 3000)):
+    def one_avctp(npk):
+        label, cr, pid = rng.below(16), rng.below(2), rng.choice([0x110E, 0x111E, rng.below(65536)])
+        sizes = [rng.choice([1, 2, 3, 5]) for _ in range(npk)]
+        a, b = rng.below(256), rng.choice([1, 3, 7])
+        return {'layout': 'pid', 'fragments': npk, 'msg': [label, cr == 0, False, pid, ['pat', sum(sizes), a, b]],
+                'pdus': avctp_frag('pid', label, cr, 0, pid, sizes, a, b)}
+    seqs.extend(fault_family(one_avctp))
+    for _ in range(ctx.n(140, 3000)):
         seqs.append(gen_avctp_sequence(rng, rng.choice([1, 2, 3, 4, 6])))
     exprs = []
     for segs in seqs:
@@ -756,7 +809,7 @@ def run_streams(ctx):
         seqs.extend([list(s) for s in itertools.product(OPS, repeat=d)])
     for d in range(full + 1, core + 1):
         seqs.extend([list(s) for s in itertools.product(CORE_OPS, repeat=d)])
-    for _ in range(ctx.n(150, 2000)):
+    for _ in range(ctx.n(120, 2000)):
         # longer walks, biased towards legal moves so that deep states are visited
         st = IDLE
         ops = []
@@ -1203,7 +1256,7 @@ def sdp_server_impl(recs, ops):
         for cid, pdu in log[before:]:
             t, parsed = parse_response(pdu)
             mtu = next((c.peer_mtu for c in chans.values() if c.cid == cid), 0)
-            outs.append([cid, t == want_tid, len(pdu) <= mtu, parsed])
+            outs.append([cid, t == want_tid, len(pdu) <= mtu, parsed + [len(pdu)]])
         per_op.append([outs, crashed])
     return per_op
 
@@ -1615,7 +1668,7 @@ def run_sdp(ctx):
     rng = ctx.rng.fork('sdp')
     # ---- server level: real Server.on_connection / channel sink against s_run
     cases = [(c['recs'], c['ops']) for c in corpus('sdp_server')]
-    for _ in range(ctx.n(80, 800)):
+    for _ in range(ctx.n(40, 800)):
         nclients = rng.choice([1, 2, 2, 3])
         mtus = [rng.choice(MTUS) for _ in range(nclients)]
         recs = gen_records(rng, rng.choice([1, 2, 3, 5, 9]), big=rng.choice([0, 0, 60, 200, 700]))
@@ -1625,7 +1678,7 @@ def run_sdp(ctx):
     model = ctx.coq_eval(M_SDP, exprs, preamble=sdp_preamble(), shard=20)
     for (recs, ops), mres in zip(cases, model):
         per_op = sdp_server_impl(recs, ops)
-        flat = [[cid, [p[0], p[1], norm(dig(p[2])), p[3]]] for outs, _ in per_op for cid, _, _, p in outs]
+        flat = [[cid, [p[0], p[1], norm(dig(p[2])), p[3], p[4]]] for outs, _ in per_op for cid, _, _, p in outs]
         nreq = sum(1 for o in ops if o[0] == 'request')
         nconn = len({o[1] for o in ops if o[0] == 'connect'})
         conts = sum(1 for o in ops if o[0] == 'request' and o[2]['cont'] == 'valid')
@@ -1648,7 +1701,7 @@ def run_sdp(ctx):
             ctx.violation('sdp:server:' + bad[0], 'SDP server: ' + bad[1], {'kind': 'sdp_server', 'recs': recs, 'ops': ops})
     # ---- end to end: real Client(s) against the real Server
     scs = [c['scenario'] for c in corpus('sdp_e2e')]
-    for _ in range(ctx.n(90, 1000)):
+    for _ in range(ctx.n(50, 1000)):
         scs.append(gen_e2e(rng, big_ok=not ctx.quick()))
     # service search with continuation: record counts around multiples of (mtu - 11) // 4, every MTU residue
     for mtu in [48, 49, 50, 51, 52, 53, 54, 55, 57, 64, 100] + ([rng.range(48, 400) for _ in range(20)] if not ctx.quick() else []):
